@@ -218,3 +218,57 @@ Definition get_spike_waveforms (q_ids q_ch : list Z) (st : store) (n : Z)
           | _, _ => None
           end) rel.
 End Wave.
+
+(* ---------------- TemplateModel.get_waveforms (phylib/io/model.py) ---------------- *)
+(* The model object holds [traces] (None when there is no raw data file), [spike_waveforms] (None when
+   one of the three _phy_spikes_subset.*.npy files is missing or unreadable), [spike_samples] and
+   [n_samples_waveforms].  get_waveforms:
+     - neither raw data nor a store: returns None;
+     - a store: get_spike_waveforms on it -- whether or not raw data exist -- and ONLY when that raises an
+       AssertionError (a queried id that the store does not hold, nsw <= 0, no channel) the raw route below;
+       any other exception propagates;
+     - no store: spike_samples[spike_ids] (NumPy fancy indexing), then extract_waveforms on the traces;
+       in the fall-back with traces = None this raises (None has no dtype). *)
+Section Route.
+Context {A : Type}.
+Variable zero : A.
+
+Inductive gw_result := GwNone | GwOut (w : list (list (list A))) | GwError.
+
+(* the three assertions of get_spike_waveforms *)
+Definition gsw_asserts (q_ids q_ch : list Z) (st : store (A := A)) (n : Z) : bool :=
+  forallb (fun x => memZ x (st_ids st)) q_ids && (0 <? n) && (0 <? zlen q_ch).
+
+Definition gw_raw (traces : option (list (list A))) (spike_samples : list Z) (n : Z)
+                  (spike_ids chans : list Z) : gw_result :=
+  match mapM (py_nth spike_samples) spike_ids with
+  | None => GwError                                              (* IndexError *)
+  | Some ss =>
+      match traces with
+      | None => GwError                                          (* AttributeError: None.dtype *)
+      | Some tr => match extract_waveforms zero tr ss n chans with
+                   | Some w => GwOut w
+                   | None => GwError
+                   end
+      end
+  end.
+
+Definition model_get_waveforms (traces : option (list (list A))) (st : option (store (A := A)))
+    (spike_samples : list Z) (n n_channels : Z) (spike_ids : list Z) (channel_ids : option (list Z))
+  : gw_result :=
+  match traces, st with
+  | None, None => GwNone
+  | _, _ =>
+      let chans := match channel_ids with Some l => l | None => zrange 0 (Z.to_nat n_channels) end in
+      match st with
+      | Some s =>
+          if gsw_asserts spike_ids chans s n
+          then match get_spike_waveforms zero spike_ids chans s n with
+               | Some w => GwOut w
+               | None => GwError
+               end
+          else gw_raw traces spike_samples n spike_ids chans
+      | None => gw_raw traces spike_samples n spike_ids chans
+      end
+  end.
+End Route.
